@@ -4,7 +4,7 @@ import time
 
 from . import core
 
-ELEMS = {"TC1": "vf::TC1", "TC4": "vf::TC4", "TC8": "vf::TC8", "TC12": "vf::TC12", "TR": "vf::TR", "NTR": "vf::NTR"}
+ELEMS = {"NTRTM": "vf::NTR_TM", "TC1": "vf::TC1", "TC4": "vf::TC4", "TC8": "vf::TC8", "TC12": "vf::TC12", "TR": "vf::TR", "NTR": "vf::NTR"}
 
 
 def alloc_expr(kind, elem):
@@ -65,7 +65,7 @@ class VCfg:
 
     @property
     def tracked(self):
-        return self.elem in ("TR", "NTR")
+        return self.elem in ("TR", "NTR", "NTRTM")
 
     @property
     def instr_alloc(self):
@@ -101,6 +101,8 @@ QUICK = [
     VCfg("f", 4, "TC4", "none", "uint8_t", "f8"),
     VCfg("f", 16, "NTR", "none", "uint8_t", "f3"),
     VCfg("f", 16, "TC12", "none", "uint8_t", "v8"),
+    # element whose move operations are not noexcept (the noexcept(false) variants of every helper), partner with a narrower size_type
+    VCfg("v", 0, "NTRTM", "basic", "uint32_t", "s8_4"),
 ]
 
 THOROUGH_EXTRA = [
